@@ -2,7 +2,7 @@
 Line protocol shared by all driver ops.
 
   input  line:  <op> <arg>* | <impl-result>
-  output line:  OK
+  output line:  OK | OK unmodelled                              (the latter: outside the model, counted)
              |  DIFF model=<model-result>                       (correspondence broken)
              |  SPEC tag=<tag> want=<spec-result>               (impl result violates the property)
              |  DIFF model=<...> SPEC tag=<tag> want=<...>      (both)
@@ -16,6 +16,7 @@ namespace Driver
 structure Verdict where
   model : String                 -- model's result in canonical text
   spec : Option (String × String) := none   -- (tag, wanted) when impl's result violates the spec
+  unmodelled : Bool := false     -- the model has no opinion on this case (only implementation-level laws applied)
 
 abbrev Handler := List String → String → Option Verdict   -- args → impl result → verdict (none = BAD)
 
@@ -24,7 +25,7 @@ def render (impl : String) (v : Verdict) : String :=
   let s := match v.spec with
     | none => ""
     | some (tag, want) => s!"SPEC tag={tag} want={want}"
-  if d.isEmpty && s.isEmpty then "OK"
+  if d.isEmpty && s.isEmpty then (if v.unmodelled then "OK unmodelled" else "OK")
   else if d.isEmpty then s
   else if s.isEmpty then d
   else d ++ " " ++ s
